@@ -10,6 +10,7 @@ INVARIANT InvConstants
 INVARIANT InvOrfs
 INVARIANT InvKmer
 INVARIANT InvRolling
+INVARIANT InvKbig
 INVARIANT InvObject
 INVARIANT InvRefusal
 CHECK_DEADLOCK FALSE
